@@ -198,7 +198,7 @@ def build_property(pid: str, extra_dirs=()) -> Build:
             targets.append(str(p.relative_to(COQ))[:-2] + ".vo")
     for p in sorted(GEN.glob(f"Gen_{pid}*.v")):
         targets.append(str(p.relative_to(COQ))[:-2] + ".vo")
-    rc, out, _ = make_targets(targets)
+    rc, out, _ = make_targets(targets, timeout=900)
     b.log = out
     if rc != 0:
         b.ok = False
